@@ -333,6 +333,36 @@ fn enumerate(out: &mut Out, thorough: bool) {
             out.rec("Affine2::transform_point2", k, 'T', 8.0 * E * linf(&c2) * (l1(&a[..2]) + 1.0), 0.0, &a2.transform_point2(Vec2::new(a[0], a[1])).to_array());
         }
     }
+    // ------------------------------------------------------------------ constructors of the SIMD-backed types
+    // (entries are computed by the same scalar formulas in every back-end: no re-association, class I)
+    {
+        let mut k = 0usize;
+        for fov in [0.3f32, 0.7853982, 1.1, 1.5707964, 2.2, 2.9] {
+            for (aspect, near, far) in [(1.6f32, 0.1f32, 50.0f32), (0.75, 1.0, 1.5), (2.35, 1e-3, 1e3)] {
+                out.rec("Mat4::projection constructors", k, 'I', 0.0, 0.0, &[
+                    Mat4::perspective_rh(fov, aspect, near, far).to_cols_array(), Mat4::perspective_lh(fov, aspect, near, far).to_cols_array(), Mat4::perspective_rh_gl(fov, aspect, near, far).to_cols_array(),
+                    Mat4::perspective_infinite_rh(fov, aspect, near).to_cols_array(), Mat4::perspective_infinite_lh(fov, aspect, near).to_cols_array(),
+                    Mat4::perspective_infinite_reverse_rh(fov, aspect, near).to_cols_array(), Mat4::perspective_infinite_reverse_lh(fov, aspect, near).to_cols_array(),
+                    Mat4::orthographic_rh(-aspect, aspect, -1.0, 1.0, near, far).to_cols_array(), Mat4::orthographic_lh(-aspect, fov, -near, 1.0, near, far).to_cols_array(), Mat4::orthographic_rh_gl(-aspect, aspect, -fov, fov, near, far).to_cols_array(),
+                ].concat());
+                k += 1;
+            }
+        }
+        for (i, a) in vs.iter().enumerate() {
+            let ang = a[3] * 0.37 + a[0];
+            if !ang.is_finite() || ang.abs() > 1e6 { continue; }
+            let ax = Vec3::new(0.26726124, 0.5345225, 0.80178374);
+            out.rec("rotation constructors", i, 'I', 0.0, 0.0, &[
+                Quat::from_axis_angle(ax, ang).to_array().to_vec(), Quat::from_rotation_x(ang).to_array().to_vec(), Quat::from_rotation_y(ang).to_array().to_vec(), Quat::from_rotation_z(ang).to_array().to_vec(),
+                Quat::from_scaled_axis(ax * ang).to_array().to_vec(), Quat::from_euler(EulerRot::ZXYEx, ang, 0.3, -ang * 0.5).to_array().to_vec(),
+                Mat3A::from_axis_angle(ax, ang).to_cols_array().to_vec(), Mat3A::from_rotation_x(ang).to_cols_array().to_vec(), Mat3A::from_rotation_y(ang).to_cols_array().to_vec(), Mat3A::from_rotation_z(ang).to_cols_array().to_vec(),
+                Mat3A::from_euler(EulerRot::YXZ, ang, 0.3, -ang * 0.5).to_cols_array().to_vec(), Mat3A::from_angle(ang).to_cols_array().to_vec(), Mat3A::from_scale_angle_translation(Vec2::new(2.0, 0.5), ang, Vec2::new(1.0, -3.0)).to_cols_array().to_vec(),
+                Mat4::from_axis_angle(ax, ang).to_cols_array().to_vec(), Mat4::from_rotation_x(ang).to_cols_array().to_vec(), Mat4::from_rotation_y(ang).to_cols_array().to_vec(), Mat4::from_rotation_z(ang).to_cols_array().to_vec(),
+                Mat4::from_euler(EulerRot::XZY, ang, 0.3, -ang * 0.5).to_cols_array().to_vec(), Mat2::from_angle(ang).to_cols_array().to_vec(), Mat2::from_scale_angle(Vec2::new(2.0, 0.5), ang).to_cols_array().to_vec(),
+                Affine3A::from_axis_angle(ax, ang).to_cols_array().to_vec(), Affine3A::from_rotation_x(ang).to_cols_array().to_vec(), Affine2::from_angle(ang).to_cols_array().to_vec(), Affine2::from_scale_angle_translation(Vec2::new(2.0, 0.5), ang, Vec2::new(1.0, -3.0)).to_cols_array().to_vec(),
+            ].concat());
+        }
+    }
     // ------------------------------------------------------------------ programs
     // (1) lane-wise alphabet on Vec3A / Vec4: compositions of exact lane-wise operations are IEEE-equal
     //     in every back-end, so these are recorded in both streams (class I)
